@@ -518,10 +518,11 @@ class Interp:
 
     # ---- expressions -----------------------------------------------------
     def lookup(self, name):
-        if name in self.macros:
-            return self.macros[name]
+        # a parameter or local of the routine being executed hides a constant of the same name
         if self.frames and name in self.frames[-1]:
             return self.frames[-1][name]
+        if name in self.macros:
+            return self.macros[name]
         if name in self.globals:
             return self.globals[name]
         raise OutOfScope('undefined variable ' + name)
